@@ -390,10 +390,21 @@ func (d *Device) SemitoneReset() {
 	}
 }
 
+// forgetAnalogPositions makes the next position of every axis count as new: what has been sent so far went to
+// the controllers of the previous mapping or to the previous channel, the current ones have not seen it
+func (d *Device) forgetAnalogPositions() {
+	for _, positions := range d.lastAnalogValue {
+		for code := range positions {
+			delete(positions, code)
+		}
+	}
+}
+
 func (d *Device) MappingDown() {
 	if d.mapping != 0 {
 		d.mapping--
 	}
+	d.forgetAnalogPositions()
 	if !d.noLogs {
 		log.Info(fmt.Sprintf("mapping down (%s)", d.config.KeyMappings[d.mapping].Name), d.logFields(logger.Action)...)
 	}
@@ -403,6 +414,7 @@ func (d *Device) MappingUp() {
 	if d.mapping != len(d.config.KeyMappings)-1 {
 		d.mapping++
 	}
+	d.forgetAnalogPositions()
 	if !d.noLogs {
 		log.Info(fmt.Sprintf("mapping up (%s)", d.config.KeyMappings[d.mapping].Name), d.logFields(logger.Action)...)
 	}
@@ -410,6 +422,7 @@ func (d *Device) MappingUp() {
 
 func (d *Device) MappingReset() {
 	d.mapping = 0
+	d.forgetAnalogPositions()
 	if !d.noLogs {
 		log.Info(fmt.Sprintf("mapping reset (%s)", d.config.KeyMappings[d.mapping].Name), d.logFields(logger.Action)...)
 	}
@@ -419,6 +432,7 @@ func (d *Device) ChannelDown() {
 	if d.channel != 0 {
 		d.channel--
 	}
+	d.forgetAnalogPositions()
 	if !d.noLogs {
 		log.Info(fmt.Sprintf("channel down (%2d)", d.channel+1), d.logFields(logger.Action)...)
 	}
@@ -428,6 +442,7 @@ func (d *Device) ChannelUp() {
 	if d.channel != 15 {
 		d.channel++
 	}
+	d.forgetAnalogPositions()
 	if !d.noLogs {
 		log.Info(fmt.Sprintf("channel up (%2d)", d.channel+1), d.logFields(logger.Action)...)
 	}
@@ -435,6 +450,7 @@ func (d *Device) ChannelUp() {
 
 func (d *Device) ChannelReset() {
 	d.channel = 0
+	d.forgetAnalogPositions()
 	if !d.noLogs {
 		log.Info(fmt.Sprintf("channel reset (%2d)", d.channel+1), d.logFields(logger.Action)...)
 	}
